@@ -457,7 +457,8 @@ func genC14(c *Cfg, emit func([]string)) {
 			}
 		}
 		cfgs := []string{"{}", "null", "[]", `{"contract":null}`, `{"contract":{}}`, `{"contract":{"symbol":"VT","robotSKI":"zz"}}`, `{"token":{}}`,
-			`{"contract":{"symbol":"VT","robotSKI":"aa","admin":{}},"token":{"issuer":null}}`, `{"contract":{"options":{"disabled_functions":[null]}}}`, "{", `{"contract":{"symbol":1}}`}
+			`{"contract":{"symbol":"VT","robotSKI":"aa","admin":{}},"token":{"issuer":null}}`, `{"contract":{"options":{"disabled_functions":[null]}}}`, "{", `{"contract":{"symbol":1}}`,
+			"", " ", "\n", "\t \n", "  {}", "{} ", "\x00", "0", "\"\"", "[", "}", "\ufeff{}", "{\"contract\":"}
 		for _, cfg := range cfgs {
 			h = append(h, "init admin "+hx(cfg))
 		}
